@@ -206,7 +206,7 @@ PROPS["C17"] = {
     "cli": True,
     "trusted_base": ["M9: real sh / bash / an argv-logging wrapper shell; pwd -P, $TXTPP_FILE, argv and exit status captured from the real child process", "library runs with the default shell compared with the model (pwd / file actions)"],
     "modelled": ["std::process::Command (current_dir, env, arg) and the shell are not modelled in Lean: the model states what is handed to them"],
-    "level_text": "Lean theorems over the model: a run directive hands the shell exactly the argument lines joined by single spaces as one string and a failing command fails the directive; base ++ display(base, src) = src (TXTPP_FILE designates the source at every depth); the working directory given to a command of a source at dir/name is base/dir. The contract with the OS is checked by correspondence on depth 0..3 x cwd relation {equal, parent with relative base_dir, unrelated} x library/CLI x {sh, bash, argv-logging shell} x command shapes; the CLI guard on TXTPP_FILE is checked on the binary.",
+    "level_text": "Lean theorems over the model: a run directive hands the shell exactly the argument lines joined by single spaces as one string and a failing command fails the directive; base ++ display(base, src) = src (TXTPP_FILE designates the source at every depth); the working directory given to a command of a source at dir/name is base/dir. The contract with the OS is checked by correspondence on depth 0..3 x cwd relation {equal, parent with relative base_dir, unrelated} x library/CLI x {sh, bash, argv-logging shell} x command shapes; main's guard on TXTPP_FILE is modelled (Model/Cli.lean `entry`): proved to refuse exactly on a non-empty value whatever the command line, and that the value a command finds in TXTPP_FILE is never empty, so a txtpp started by a command refuses (commands_cannot_recurse); the binary is compared with that model on TXTPP_FILE values x {build, -N, verify, clean} and on run commands that start txtpp themselves at depth 0..2.",
     "design_ref": "5 C17",
     "level_note": "Mostly a correspondence-level claim: process spawning is OS behaviour. Finding F1 (relative cwd) was repaired; the cwd-relation dimension is what exposed it.",
     "technique": "Lean 4 proof (command join, display/join round trip) + correspondence with real shells",
